@@ -1,6 +1,6 @@
 """C12 configuration for ./check (keys: see checks/propcfg.py)."""
 CFG = {
-    "modules": ["VaxisModel.Props.C12", "VaxisModel.Props.C12Read", "VaxisModel.Witness.F112b", "VaxisModel.Witness.F112c", "VaxisModel.Witness.F112d"],
+    "modules": ["VaxisModel.Props.C12", "VaxisModel.Props.C12Read", "VaxisModel.Props.C12Resize", "VaxisModel.Witness.F112b", "VaxisModel.Witness.F112c", "VaxisModel.Witness.F112d"],
     "extractors": ["C07", "C04", "C05", "C03", "C12"],
     "drivers": ["C12"],
     "stateful": True,
